@@ -9,7 +9,8 @@ EXTENDS SymmetryClass
 
 CONSTANTS MaxAtoms,    \* atoms per cell
           Modes,       \* subset of {"none", "col", "ncl"}
-          NSpecies
+          NSpecies,
+          WithExpect   \* compute the expected values of every reached cell
 
 Grid2 == {<<x, y, z>> : x \in 0..1, y \in 0..1, z \in 0..1}
 HexG(c) == <<<<2, -1, 0>>, <<-1, 2, 0>>, <<0, 0, c>>>>
@@ -34,20 +35,29 @@ Moments(mode) ==
     [] mode = "col" -> {<<m, 0, 0>> : m \in {-1, 0, 1, 2}}
     [] mode = "ncl" -> {<<0,0,0>>, <<0,0,1>>, <<0,0,-1>>, <<1,0,0>>, <<1,1,0>>, <<-1,-1,0>>}
 
-VARIABLES lat, mode, atoms
-vars == <<lat, mode, atoms>>
+VARIABLES lat, mode, atoms, expect
+vars == <<lat, mode, atoms, expect>>
 
 Init == /\ lat \in 1..Len(Lattices)
         /\ mode \in Modes
         /\ atoms = <<>>
+        /\ expect = <<>>
 
 Add == /\ Len(atoms) < MaxAtoms
+       /\ expect = <<>>
        /\ \E s \in Lattices[lat].sites \ {atoms[k].num : k \in 1..Len(atoms)} :
             \E sp \in 1..NSpecies : \E m \in Moments(mode) :
                atoms' = Append(atoms, [sp |-> sp, num |-> s, mg |-> m])
-       /\ UNCHANGED <<lat, mode>>
+       /\ UNCHANGED <<lat, mode, expect>>
 
-Next == Add
+(* close the cell: what the definition says about it *)
+Finish == /\ WithExpect
+          /\ Len(atoms) >= 1
+          /\ expect = <<>>
+          /\ expect' = Expected([gram |-> Lattices[lat].gram, den |-> Lattices[lat].den, atm |-> atoms, mmode |-> mode])
+          /\ UNCHANGED <<lat, mode, atoms>>
+
+Next == Add \/ Finish
 
 (* what the harness reads from a state *)
 CellOf == [gram |-> Lattices[lat].gram, den |-> Lattices[lat].den, atm |-> atoms, mmode |-> mode]
